@@ -3,6 +3,7 @@ package rag
 import (
 	"strings"
 	"unicode"
+	"unicode/utf8"
 )
 
 // OverlapStrategy defines how overlap between chunks is computed
@@ -153,14 +154,21 @@ func (og *OverlapGenerator) generateCharacterOverlap(text string) string {
 	// Start from target position
 	start := len(text) - og.config.Size
 
-	// If preserving words, find the next word boundary
+	// Never start inside a multi-byte character
+	for start < len(text) && !utf8.RuneStart(text[start]) {
+		start++
+	}
+
+	// If preserving words, find the next word boundary.
+	// The text is scanned byte by byte: only ASCII bytes can be white space on their
+	// own (bytes >= 0x80 such as 0x85 or 0xA0 are parts of multi-byte characters).
 	if og.config.PreserveWords {
 		// Move forward to find start of a word
-		for start < len(text) && !unicode.IsSpace(rune(text[start])) {
+		for start < len(text) && !(text[start] < utf8.RuneSelf && unicode.IsSpace(rune(text[start]))) {
 			start++
 		}
 		// Skip whitespace
-		for start < len(text) && unicode.IsSpace(rune(text[start])) {
+		for start < len(text) && text[start] < utf8.RuneSelf && unicode.IsSpace(rune(text[start])) {
 			start++
 		}
 	}
